@@ -1106,6 +1106,7 @@ class OdeSystem(object):
                             total_steps = self.__alloc_space_steps(tf - dTime) + 1 + len(roots)
                             self.__allocate_soln_space(total_steps)
 
+                        __events_before_step = len(self.__events)
                         for ev_idx, root, ev in zip(active_events, roots, evs):
                             if dTime >= 0:
                                 true_positive = (self.__t[self.counter] <= root) & (root <= prev_time + dTime)
@@ -1127,7 +1128,15 @@ class OdeSystem(object):
                             while len(self.__sol) > __pre_length:
                                 self.__sol.remove_interpolant(-1 if dTime >= 0 else 0)
                             __counter_before_landing = self.counter
-                            self.integrate(roots[-1])
+                            try:
+                                self.integrate(roots[-1])
+                            except BaseException:
+                                # the landing failed part of the way: the events of this step that lie beyond what was
+                                # recorded go with the step (a resumed call finds them again)
+                                self.__events[__events_before_step:] = [
+                                    __rec for __rec in self.__events[__events_before_step:]
+                                    if (__rec.t - self.__t[self.counter]) * (1 if dTime >= 0 else -1) <= 0]
+                                raise
                             # (an event on the very start of the step: the landing is a call to the current time and records nothing)
                             __step_recorded = self.counter > __counter_before_landing
                             self.__int_status = 2
